@@ -62,7 +62,8 @@ def run(tier, seed):
     for t, (job, e) in enumerate(zip(ejobs, emitted)):
         e.update({"t": t, "expects": job["expects"]})
         erecs.append(e)
-    verdicts = GC.judge_emits(chk, erecs)
+    verdicts = GC.judge_emits(chk, erecs, jobs=ejobs, fallback=(GR.run_borders, lambda j: GC.split_patterns(
+        dict(j, prim=True, patterns=list(range(len(j["expects"])))), 64)))
     for t, job in enumerate(ejobs):
         v = verdicts[t]
         chk.note_case(f"emit/borders/{job['id']}", len(job["obj"]["graph"]["edges"]) >= 2)
